@@ -9,7 +9,7 @@ set -u
 exec 9>/tmp/seed/$1.lock; flock 9
 P=$1; N=$2; TIER=${3:-quick}
 SRC=/tmp/seed/$P-out/change$N
-[ -d $SRC ] || SRC=/verif/seeded/$P-$N
+[ -d $SRC ] && [ -z "${SEED_STORED:-}" ] || SRC=/verif/seeded/$P-$N
 WT=/tmp/seed/$P
 DST=/verif/seeded/$P-$N
 BOX=/tmp/seedbox-$P-$N
